@@ -18,6 +18,23 @@ def main():
     m = importlib.import_module(module)
     base_r = getattr(m, proto + "ReaderBase")
     steps = [n[5:] for n in base_r.__dict__ if n.startswith("read_")]
+    if cmd == "multiopen":
+        # several readers, possibly of different protocols, opened one after the other in this one process:
+        #   open <Protocol> <binary|ndjson> <file>     -> "OPENED <Protocol> first=<repr of first step value>" | "REFUSED <Protocol> <error>"
+        for line in sys.stdin:
+            a = line.split()
+            if len(a) != 4 or a[0] != "open":
+                continue
+            pr, f2, path = a[1], a[2], a[3]
+            R = getattr(m, ("Binary" if f2 == "binary" else "NDJson") + pr + "Reader")
+            try:
+                r = R(path)
+                st = [n[5:] for n in getattr(m, pr + "ReaderBase").__dict__ if n.startswith("read_")]
+                v = getattr(r, "read_" + st[0])()
+                print("OPENED %s first=%r" % (pr, v), flush=True)
+            except Exception as e:
+                print("REFUSED %s %s: %s" % (pr, type(e).__name__, str(e).replace("\n", " ")[:120]), flush=True)
+        return 0
     if cmd == "rcalls":
         R = getattr(m, ("Binary" if fmt == "binary" else "NDJson") + proto + "Reader")
         try:
